@@ -321,6 +321,45 @@ pub fn dijkstra_case(g: &WG, d: &WU, srcs: &[usize], ctx: &mut Ctx) {
             let want: Vec<usize> = (0..g.n).map(|v| if dist[v] == INF { usize::MAX } else { dist[v] as usize }).collect();
             if got != want {
                 ctx.fail(format!("DijkstraDist::distances() = {got:?}, shortest distances are {want:?} (usize::MAX = unreachable)"), det());
+                return;
+            }
+        }
+    }
+    // distances() on a search that has already yielded k items: entries are exact or usize::MAX,
+    // and every reachable vertex is either already yielded or labelled now
+    let len = g.reach(sm).count_ones() as usize;
+    let ks: Vec<usize> = if len <= 6 { (1..len).collect() } else { vec![1, 2, len / 2, len - 1] };
+    for k in ks {
+        ctx.exec();
+        match guarded(|| {
+            let mut it = DijkstraDist::new(d, srcs.to_vec().into_iter());
+            let head: Vec<(usize, usize)> = it.by_ref().take(k).collect();
+            (head, it.distances())
+        }) {
+            Err(e) => {
+                ctx.fail(format!("DijkstraDist: {k} × next() then distances() panicked: {e}"), det());
+                return;
+            }
+            Ok((head, got)) => {
+                let mut acc = 0u32;
+                for h in &head {
+                    if h.0 < g.n {
+                        acc |= 1 << h.0;
+                    }
+                }
+                let mut bad = got.len() != g.n;
+                for (v, &w) in got.iter().enumerate().take(g.n) {
+                    if w != usize::MAX {
+                        acc |= 1 << v;
+                        if dist[v] == INF || w as i128 != dist[v] {
+                            bad = true;
+                        }
+                    }
+                }
+                if bad || acc != g.reach(sm) {
+                    ctx.fail(format!("DijkstraDist: after {k} × next() (items {head:?}) distances() = {got:?}: an entry is neither the exact distance nor usize::MAX, or a reachable vertex is neither yielded nor labelled"), det());
+                    return;
+                }
             }
         }
     }
@@ -387,7 +426,7 @@ pub fn c03(tier: &str, seed: u64) -> Check {
         "C03",
         tier,
         seed,
-        "bounded-exhaustive: every AdjacencyListWeighted<usize> digraph of order ≤ 3 with weights {0,1,2,5}, order 4 with weights {1,3} (all 3^12), order 4 with {0,1,3} (≤ 6 arcs quick / all 4^12 thorough), order 5 with ≤ 7 arcs (thorough) × every subset of sources in both orders; Dijkstra and DijkstraDist item streams (each reachable vertex once, none unreachable, non-decreasing true distance, exact item distance) and distances() against distances from |V|-1 rounds of set relaxation in i128. Ties are accepted in any order. Beyond exhaustive reach: a fixed catalogue of 17 structured shapes × 4 weight patterns at orders 6..11 (up to 110 arcs), every single source and six source sets. Non-trivial: a lazy-deletion heap simulated on the reference pops a superseded entry before the last reachable vertex is settled.",
+        "bounded-exhaustive: every AdjacencyListWeighted<usize> digraph of order ≤ 3 with weights {0,1,2,5}, order 4 with weights {1,3} (all 3^12), order 4 with {0,1,3} (≤ 6 arcs quick / all 4^12 thorough), order 5 with ≤ 7 arcs (thorough) × every subset of sources in both orders; Dijkstra and DijkstraDist item streams (each reachable vertex once, none unreachable, non-decreasing true distance, exact item distance) and distances() against distances from |V|-1 rounds of set relaxation in i128; distances() is also called on a DijkstraDist that has already yielded k items (every k): entries exact or usize::MAX, every reachable vertex yielded or labelled. Ties are accepted in any order. Beyond exhaustive reach: a fixed catalogue of 17 structured shapes × 4 weight patterns at orders 6..11 (up to 110 arcs), every single source and six source sets. Non-trivial: a lazy-deletion heap simulated on the reference pops a superseded entry before the last reachable vertex is settled.",
         &["weights from small alphabets plus {1, 2^32+1, 2^40} and, at order 3, {1, 2^62, 2^62+1} (two-arc walks exceed isize::MAX; no tentative sum reaches 2^64)", "sources distinct and in range"],
         json!({"alphabets": {"n<=3": [0,1,2,5], "n=4": [[1,3],[0,1,3]]}}),
     );
@@ -425,6 +464,12 @@ fn path_check(g: &WG, path: &[usize], sm: u32, tm: u32, dist: &[i128; NMAX]) -> 
 }
 
 fn tree_check(g: &WG, pred: &[Option<usize>], sm: u32, dist: &[i128; NMAX]) -> Result<(), String> {
+    tree_check_resumed(g, pred, sm, dist, 0)
+}
+
+/// `none_ok`: vertices that were yielded before predecessors() was called on a search already
+/// under way (their entries may be the neutral None).
+fn tree_check_resumed(g: &WG, pred: &[Option<usize>], sm: u32, dist: &[i128; NMAX], none_ok: u32) -> Result<(), String> {
     if pred.len() != g.n {
         return Err(format!("tree has {} entries for order {}", pred.len(), g.n));
     }
@@ -432,7 +477,7 @@ fn tree_check(g: &WG, pred: &[Option<usize>], sm: u32, dist: &[i128; NMAX]) -> R
         let is_src = sm >> v & 1 == 1;
         match pred[v] {
             None => {
-                if !is_src && dist[v] != INF {
+                if !is_src && dist[v] != INF && none_ok >> v & 1 == 0 {
                     return Err(format!("reachable non-source vertex {v} has no predecessor"));
                 }
             }
@@ -472,6 +517,32 @@ pub fn c05_dijkstra_case(g: &WG, d: &WU, srcs: &[usize], ctx: &mut Ctx) -> bool 
             if let Err(e) = tree_check(g, &pred, sm, &dist) {
                 ctx.fail(format!("DijkstraPred::predecessors() = {pred:?}: {e}"), det());
                 return false;
+            }
+        }
+    }
+    // predecessors() on a search that has already yielded k items: every entry is a valid tree arc
+    // or (for the vertices already yielded) None
+    {
+        let len = g.reach(sm).count_ones() as usize;
+        let ks: Vec<usize> = if len <= 6 { (1..len).collect() } else { vec![1, 2, len / 2, len - 1] };
+        for k in ks {
+            ctx.exec();
+            match guarded(|| {
+                let mut it = DijkstraPred::new(d, srcs.to_vec().into_iter());
+                let head: Vec<(Option<usize>, usize)> = it.by_ref().take(k).collect();
+                (head, it.predecessors().pred)
+            }) {
+                Err(e) => {
+                    ctx.fail(format!("DijkstraPred: {k} × next() then predecessors() panicked: {e}"), det());
+                    return false;
+                }
+                Ok((head, pred)) => {
+                    let none_ok = head.iter().filter(|h| h.1 < g.n).fold(0u32, |m, h| m | 1 << h.1);
+                    if let Err(e) = tree_check_resumed(g, &pred, sm, &dist, none_ok) {
+                        ctx.fail(format!("DijkstraPred: after {k} × next() (items {head:?}) predecessors() = {pred:?}: {e}"), det());
+                        return false;
+                    }
+                }
             }
         }
     }
@@ -590,6 +661,30 @@ pub fn c05_bfs_case<R: Rep>(g: &WG, d: &R, srcs: &[usize], ctx: &mut Ctx) -> boo
             if let Err(e) = tree_check(g, &pred, sm, &dist) {
                 ctx.fail(format!("BfsPred::predecessors() = {pred:?}: {e}"), det());
                 return false;
+            }
+        }
+    }
+    {
+        let len = g.reach(sm).count_ones() as usize;
+        let ks: Vec<usize> = if len <= 6 { (1..len).collect() } else { vec![1, 2, len / 2, len - 1] };
+        for k in ks {
+            ctx.exec();
+            match guarded(|| {
+                let mut it = BfsPred::new(d, srcs.to_vec().into_iter());
+                let head: Vec<(Option<usize>, usize)> = it.by_ref().take(k).collect();
+                (head, it.predecessors().pred)
+            }) {
+                Err(e) => {
+                    ctx.fail(format!("BfsPred: {k} × next() then predecessors() panicked: {e}"), det());
+                    return false;
+                }
+                Ok((head, pred)) => {
+                    let none_ok = head.iter().filter(|h| h.1 < g.n).fold(0u32, |m, h| m | 1 << h.1);
+                    if let Err(e) = tree_check_resumed(g, &pred, sm, &dist, none_ok) {
+                        ctx.fail(format!("BfsPred: after {k} × next() (items {head:?}) predecessors() = {pred:?}: {e}"), det());
+                        return false;
+                    }
+                }
             }
         }
     }
@@ -734,7 +829,7 @@ pub fn c05(tier: &str, seed: u64) -> Check {
         "C05",
         tier,
         seed,
-        "bounded-exhaustive: BFS part — every digraph on 0..n, n ≤ 4 (order 5 with ≤ 1-2 sources) × 5 representations × every source subset in both orders × every target predicate (all 2^n vertex subsets); Dijkstra part — every weighted digraph of order ≤ 3 over {0,1,2,5} with all source subsets, order 4 over {1,3} (single sources quick, all subsets thorough) × every target predicate. Oracle: tree entries are shortest-path-tree arcs w.r.t. reference distances; shortest_path is None iff no target reachable, else starts at a source, ends at a target, follows arcs and has the minimum weight over all targets (any optimal path accepted); every cycles() entry is an elementary cycle. Plus the structured catalogue at orders 6..9 with every target predicate. Non-trivial: ≥ 2 reachable targets at different distances (every catalogue case counts).",
+        "bounded-exhaustive: BFS part — every digraph on 0..n, n ≤ 4 (order 5 with ≤ 1-2 sources) × 5 representations × every source subset in both orders × every target predicate (all 2^n vertex subsets); Dijkstra part — every weighted digraph of order ≤ 3 over {0,1,2,5} with all source subsets, order 4 over {1,3} (single sources quick, all subsets thorough) × every target predicate. Oracle: tree entries are shortest-path-tree arcs w.r.t. reference distances (also when predecessors() is called on a BfsPred / DijkstraPred that has already yielded k items, every k: entries valid, None only for vertices yielded before the call); shortest_path is None iff no target reachable, else starts at a source, ends at a target, follows arcs and has the minimum weight over all targets (any optimal path accepted); every cycles() entry is an elementary cycle. Plus the structured catalogue at orders 6..9 with every target predicate. Non-trivial: ≥ 2 reachable targets at different distances (every catalogue case counts).",
         &["cycles(): soundness only (the property does not claim completeness)", "sources distinct and in range"],
         json!({"bfs_max_order": 5, "dijkstra_alphabets": [[0,1,2,5],[1,3]]}),
     );
